@@ -385,7 +385,9 @@ fn root_cause(witness: &str, class: &str) -> Option<String> {
             return Some("else-chain-ends-with-conditional".into());
         }
     }
-    if class.contains("inconsistent-depth") && class.contains("via:JumpTo") && nodes.iter().any(|n| n.get_definition() == Df::Reapply) {
+    if class.contains("inconsistent-depth") && nodes.iter().any(|n| n.get_definition() == Df::Reapply) {
+        // (the inconsistency is noticed at the restart jump itself or, when the restarted entry is reached
+        // first, at the next join after it: same cause)
         // a reapply that is not the whole arm/expression: operands pending around it are carried into the restart
         let pending = nodes.iter().enumerate().any(|(_, n)| {
             if n.get_definition() != Df::Reapply {
